@@ -44,6 +44,7 @@ import (
 	"github.com/anyproto/any-sync/commonspace/object/acl/syncacl"
 	"github.com/anyproto/any-sync/commonspace/object/keyvalue/keyvaluestorage"
 	"github.com/anyproto/any-sync/commonspace/object/keyvalue/kvinterfaces"
+	"github.com/anyproto/any-sync/commonspace/object/tree/objecttree"
 	"github.com/anyproto/any-sync/commonspace/object/treesyncer"
 	"github.com/anyproto/any-sync/commonspace/peermanager"
 	"github.com/anyproto/any-sync/commonspace/spacestate"
@@ -91,16 +92,18 @@ type world struct {
 	log []string
 }
 
-func newWorld(peers []string, peerSeq map[string][]string, aclId, kvId string) *world {
+func newWorld(peers []string, peerSeq map[string][]string, aclId, kvId string, noSpace ...string) *world {
 	w := &world{dir: mkScratch(), nodes: map[string]*node{}, peerSeq: peerSeq, aclId: aclId, kvId: kvId,
 		tasks: map[task]bool{}, headText: map[string]string{}}
 	w.order = append(w.order, peers...)
 	sort.Strings(w.order)
 	for _, p := range w.order {
-		w.nodes[p] = newNode(w, p)
+		w.nodes[p] = newNode(w, p, !contains(noSpace, p))
 	}
 	for _, p := range w.order {
-		w.nodes[p].start()
+		if w.nodes[p].space {
+			w.nodes[p].start()
+		}
 	}
 	return w
 }
@@ -118,9 +121,20 @@ func mkScratch() string {
 }
 
 func (w *world) close() {
+	// whatever is still parked fails its request (everybody offline), then the components and the stores go
+	for _, p := range w.order {
+		n := w.nodes[p]
+		n.mu.Lock()
+		n.online = false
+		n.mu.Unlock()
+	}
 	for _, p := range w.order {
 		w.nodes[p].abortRound()
+	}
+	for _, p := range w.order {
 		w.nodes[p].stop()
+	}
+	for _, p := range w.order {
 		_ = w.nodes[p].db.Close()
 	}
 	_ = os.RemoveAll(w.dir)
@@ -193,7 +207,7 @@ func (w *world) register(id string, heads []string) {
 // ---------------------------------------------------------------------------------- node
 
 type gate struct {
-	kind string // "req" | "filter" | "done"
+	kind string // "req" | "push" | "filter" | "done"
 	conn *fakeConn
 	rel  chan struct{}
 	err  error
@@ -216,6 +230,10 @@ type node struct {
 
 	mu       sync.Mutex
 	online   bool
+	space    bool // the node holds the space (the component is running)
+	pushReqs []string
+	subs     []string
+	fillHook func() // runs once, right after FillDiff has read the head storage
 	armed    bool
 	held     []headstorage.HeadsEntry
 	fenceN   int
@@ -246,8 +264,8 @@ type diffExpect struct {
 	Diffed        bool // a Diff was run (the hashes differed)
 }
 
-func newNode(w *world, id string) *node {
-	n := &node{w: w, id: id, online: true}
+func newNode(w *world, id string, space bool) *node {
+	n := &node{w: w, id: id, online: true, space: space}
 	db, err := anystore.Open(ctxBg, filepath.Join(w.dir, id+".db"), nil)
 	if err != nil {
 		hpanic("open db: %v", err)
@@ -263,16 +281,36 @@ func newNode(w *world, id string) *node {
 	}
 	n.hst = &headStoreWrap{HeadStorage: n.real, n: n}
 	n.real.AddObserver(n.hst)
-	// the acl list and the key-value store exist before the space is opened
-	if w.aclId != "" {
-		n.write(w.aclId, w.headsOf(w.aclId, nil), false)
+	if space {
+		n.seed()
 	}
-	if w.kvId != "" {
-		n.write(w.kvId, w.headsOf(w.kvId, nil), false)
-	}
-	n.held = nil
 	return n
 }
+
+// seed: the acl list and the key-value store exist before the space is opened
+func (n *node) seed() {
+	if n.w.aclId != "" {
+		n.write(n.w.aclId, n.w.headsOf(n.w.aclId, nil), false)
+	}
+	if n.w.kvId != "" {
+		n.write(n.w.kvId, n.w.headsOf(n.w.kvId, nil), false)
+	}
+	n.mu.Lock()
+	n.held = nil
+	n.mu.Unlock()
+}
+
+// receivePush: what the SpacePush handler of the remote side does as far as this component is concerned -
+// the space is created from the pushed header, acl root and settings root, and opened
+func (n *node) receivePush() {
+	n.seed()
+	n.start()
+	n.mu.Lock()
+	n.space = true
+	n.mu.Unlock()
+}
+
+func (n *node) hasSpace() bool { n.mu.Lock(); defer n.mu.Unlock(); return n.space }
 
 // write stores heads the way the tree / acl / key-value storages do (UpdateEntry; the observers are
 // notified by the real head storage when the entry was modified).
@@ -444,6 +482,35 @@ func (f *fakeSpaceStorage) HeadStorage() headstorage.HeadStorage    { return f.n
 func (f *fakeSpaceStorage) StateStorage() statestorage.StateStorage { return f.n.ss }
 func (f *fakeSpaceStorage) AnyStore() anystore.DB                   { return f.n.db }
 
+// what sendPushSpaceRequest reads: the acl root and the settings root
+type fakeAclStorage struct {
+	list.Storage
+	id string
+}
+
+func (f fakeAclStorage) Root(context.Context) (list.StorageRecord, error) {
+	return list.StorageRecord{RawRecord: []byte("acl-root-of-" + f.id), Id: f.id}, nil
+}
+
+type fakeTreeStorage struct {
+	objecttree.Storage
+	id string
+}
+
+func (f fakeTreeStorage) Root(context.Context) (objecttree.StorageChange, error) {
+	return objecttree.StorageChange{RawChange: []byte("root-of-" + f.id), Id: f.id}, nil
+}
+func (f *fakeSpaceStorage) AclStorage() (list.Storage, error) {
+	id := f.n.w.aclId
+	if id == "" {
+		id = "~no-acl"
+	}
+	return fakeAclStorage{id: id}, nil
+}
+func (f *fakeSpaceStorage) TreeStorage(ctx context.Context, id string) (objecttree.Storage, error) {
+	return fakeTreeStorage{id: id}, nil
+}
+
 // headStoreWrap is the real head storage; it only takes the place of the observer list so that the
 // driver decides when a notification reaches the headUpdater queue (the spec's IndexApply).
 type headStoreWrap struct {
@@ -460,9 +527,30 @@ func (h *headStoreWrap) AddObserver(o headstorage.Observer) {
 }
 func (h *headStoreWrap) resetObservers() { h.omu.Lock(); h.obs = nil; h.omu.Unlock() }
 func (h *headStoreWrap) OnUpdate(e headstorage.HeadsEntry) {
+	h.omu.Lock()
+	subscribed := len(h.obs) > 0
+	h.omu.Unlock()
+	if !subscribed {
+		return // nobody has called AddObserver (yet): the real head storage would notify nobody
+	}
 	h.n.mu.Lock()
 	h.n.held = append(h.n.held, e)
 	h.n.mu.Unlock()
+}
+
+// IterateEntries of the live entries is FillDiff's read; the hook lets a write land right after it
+func (h *headStoreWrap) IterateEntries(ctx context.Context, opts headstorage.IterOpts, it headstorage.EntryIterator) error {
+	err := h.HeadStorage.IterateEntries(ctx, opts, it)
+	if !opts.Deleted {
+		h.n.mu.Lock()
+		hook := h.n.fillHook
+		h.n.fillHook = nil
+		h.n.mu.Unlock()
+		if hook != nil {
+			hook()
+		}
+	}
+	return err
 }
 func (h *headStoreWrap) deliver(e headstorage.HeadsEntry) {
 	h.omu.Lock()
@@ -560,6 +648,9 @@ func (f *fakePeerManager) KeepAlive(ctx context.Context) {
 	}
 }
 func (f *fakePeerManager) SendMessage(ctx context.Context, peerId string, msg drpc.Message) error {
+	f.n.mu.Lock()
+	f.n.subs = append(f.n.subs, peerId)
+	f.n.mu.Unlock()
 	return nil
 }
 
@@ -604,6 +695,9 @@ func (c *fakeConn) NewStream(ctx context.Context, rpc string, enc drpc.Encoding)
 	return nil, errors.New("verif: streams are not part of the head-sync round")
 }
 func (c *fakeConn) Invoke(ctx context.Context, rpc string, enc drpc.Encoding, in, out drpc.Message) error {
+	if rpc == "/spacesync.SpaceSync/SpacePush" {
+		return c.push(ctx, enc, in, out)
+	}
 	if rpc != "/spacesync.SpaceSync/HeadSync" {
 		return fmt.Errorf("verif: unexpected rpc %s", rpc)
 	}
@@ -613,6 +707,9 @@ func (c *fakeConn) Invoke(ctx context.Context, rpc string, enc drpc.Encoding, in
 	if !c.target.isOnline() {
 		c.failed = true
 		return fmt.Errorf("verif: peer %s went offline: %w", c.target.id, net.ErrClosed)
+	}
+	if !c.target.hasSpace() {
+		return spacesyncproto.ErrSpaceMissing
 	}
 	b, err := enc.Marshal(in)
 	if err != nil {
@@ -635,12 +732,46 @@ func (c *fakeConn) Invoke(ctx context.Context, rpc string, enc drpc.Encoding, in
 	return enc.Unmarshal(b, out)
 }
 
+func (c *fakeConn) push(ctx context.Context, enc drpc.Encoding, in, out drpc.Message) error {
+	g := gate{kind: "push", conn: c, rel: make(chan struct{})}
+	c.n.gates <- g
+	<-g.rel
+	if !c.target.isOnline() {
+		c.failed = true
+		return fmt.Errorf("verif: peer %s went offline: %w", c.target.id, net.ErrClosed)
+	}
+	b, err := enc.Marshal(in)
+	if err != nil {
+		return err
+	}
+	req := new(spacesyncproto.SpacePushRequest)
+	if err = enc.Unmarshal(b, req); err != nil {
+		return err
+	}
+	pl := req.GetPayload()
+	c.n.mu.Lock()
+	c.n.pushReqs = append(c.n.pushReqs, fmt.Sprintf("%s|%s|%s|%s", pl.GetSpaceHeader().GetId(), pl.GetAclPayloadId(), pl.GetSpaceSettingsPayloadId(), req.GetCredential()))
+	c.n.mu.Unlock()
+	if c.target.hasSpace() {
+		return spacesyncproto.ErrSpaceExists
+	}
+	c.target.receivePush()
+	b, err = enc.Marshal(&spacesyncproto.SpacePushResponse{})
+	if err != nil {
+		return err
+	}
+	return enc.Unmarshal(b, out)
+}
+
 // ---------------------------------------------------------------------------------- observations
 
 type idxView map[string]string // id -> element head as stored in the index
 
 // index reads the real index of the node: the full range with elements, through the component's API.
 func (n *node) index() (idxView, []byte) {
+	if !n.hasSpace() {
+		return idxView{}, nil
+	}
 	resp, err := n.hs.HandleRangeRequest(ctxBg, &spacesyncproto.HeadSyncRequest{
 		SpaceId: spaceId, DiffType: spacesyncproto.DiffType_V3,
 		Ranges: []*spacesyncproto.HeadSyncRange{{From: 0, To: math.MaxUint64, Elements: true, Limit: math.MaxUint32}},
@@ -690,7 +821,9 @@ func (w *world) decode(v idxView) map[string]string {
 	return res
 }
 
-func (n *node) tomb(id string) bool { return n.del.ObjectDeletionState.Exists(id) }
+func (n *node) tomb(id string) bool {
+	return n.del != nil && n.del.ObjectDeletionState.Exists(id)
+}
 
 // has: the object (its tree storage) exists here
 func (n *node) has(id string) bool {
@@ -816,6 +949,8 @@ func (n *node) roundState() roundState {
 	switch {
 	case g == nil:
 		return roundState{St: "idle", Cur: "-"}
+	case g.kind == "push":
+		return roundState{St: "push", Cur: g.conn.target.id}
 	case g.kind == "req" && g.conn.nreq == 0:
 		return roundState{St: "check", Cur: g.conn.target.id}
 	case g.kind == "req":
